@@ -292,7 +292,7 @@ def search(ck: Check) -> None:
         why = violation(s)
         if why is not None:
             bad.append((s, why))
-    bad.sort(key=lambda p: len(p[0]))
+    bad = sorted({s: w for s, w in reversed(bad)}.items(), key=lambda p: (len(p[0]), p[0]))
     ck.notes["docstring_property_refuters"] = [s for s, _ in bad[:10]] or "none"
     for s, _ in bad[:8]:
         if embed(ck, camp, s):
